@@ -122,13 +122,25 @@ func runCase(rt *rapid.T, c *vk.Case, prof profile, sh shape) {
 
 	h := runHistory(e, u, preload, quiet, progs, maint)
 	if len(h.maintErr) > 0 {
-		c.Failf(rt, nil, "background maintenance failed: %v", h.maintErr)
+		// a refused or failed FlushIndex/CompactIndex is not a statement about the KV operations; if it
+		// damaged the index the reads below show it
+		c.Label("flush/compact-answered-with-an-error")
 	}
 	m, err := readBack(e, h.n)
 	if err != nil {
 		c.Failf(rt, nil, "reading the committed history back: %v", err)
 	}
 	st := checkHistory(rt, c, m, h)
+	if len(st.classes) == 0 {
+		// independent cross-check of the oracle itself (register search on the logical clock)
+		n, bad := crossCheck(m, h)
+		if bad != "" {
+			c.Failf(rt, dumpHistory(m, h.recs, nil), "HARNESS DISAGREEMENT (the window oracle accepted this history, the independent register search does not): %s", bad)
+		}
+		if n > 0 {
+			c.Label("cross-checked-by-register-search")
+		}
+	}
 
 	// classification
 	c.Label("profile-" + prof.name)
@@ -258,19 +270,19 @@ func checkHistory(rt *rapid.T, c *vk.Case, m *model, h *history) *stats {
 }
 
 func TestLinearizableMixed(t *testing.T) {
-	vk.Check(t, 160, 9000, func(rt *rapid.T, c *vk.Case) {
+	vk.Check(t, 400, 16000, func(rt *rapid.T, c *vk.Case) {
 		runCase(rt, c, mixedProfile, shape{minClients: 3, maxClients: 8, minKeys: 6, maxKeys: 12, minOps: 8, maxOps: 25, preloadMax: 8})
 	})
 }
 
 func TestConditionalRace(t *testing.T) {
-	vk.Check(t, 120, 7000, func(rt *rapid.T, c *vk.Case) {
+	vk.Check(t, 300, 10000, func(rt *rapid.T, c *vk.Case) {
 		runCase(rt, c, casProfile, shape{minClients: 3, maxClients: 8, minKeys: 6, maxKeys: 7, minOps: 10, maxOps: 30, preloadMax: 3})
 	})
 }
 
 func TestReadsUnderWriters(t *testing.T) {
-	vk.Check(t, 120, 7000, func(rt *rapid.T, c *vk.Case) {
+	vk.Check(t, 300, 10000, func(rt *rapid.T, c *vk.Case) {
 		runCase(rt, c, readProfile, shape{minClients: 4, maxClients: 8, minKeys: 6, maxKeys: 10, minOps: 10, maxOps: 25, preloadMax: 10})
 	})
 }
